@@ -541,7 +541,7 @@ theorem processRedirect_nonurl {cfg : Cfg} {s s' : Sess} {st : Nat} {hasLoc : Bo
     · simp [h1, h2] at h
     · cases tgt with
       | invalid => simp [h1, h2] at h
-      | other => simp [h1, h2] at h; subst h; rfl
+      | other => simp [h1, h2] at h
       | url u => exact absurd rfl (hne u)
 
 theorem processResponse_pending (cfg : Cfg) (hj : cfg.useJar = false)
